@@ -471,6 +471,41 @@ impl InstructionGenerator {
         self.push(Instruction::CopyAToVarPath, pos);
     }
 
+    /// The name of a variable of the generator's own making, that belongs to the statement at
+    /// the given position (e.g. the value a `SELECT CASE` is selecting on).
+    /// Such a name cannot be written in a program, so it cannot clash with a variable of the program.
+    /// The variable lives with the variables of the running SUB / FUNCTION call
+    /// (or of the main module), like any other local variable.
+    pub fn hidden_variable_name(purpose: &str, q: TypeQualifier, pos: Position) -> Name {
+        let bare_name = BareName::new(format!("{} {}:{}", purpose, pos.row(), pos.col()));
+        Name::qualified(bare_name, q)
+    }
+
+    /// Stores A into the given hidden variable.
+    pub fn store_hidden_variable(&mut self, name: &Name, pos: Position) {
+        self.push(
+            Instruction::VarPathName(RootPath {
+                name: name.clone(),
+                shared: false,
+            }),
+            pos,
+        );
+        self.push(Instruction::CopyAToVarPath, pos);
+    }
+
+    /// Loads the given hidden variable into A.
+    pub fn load_hidden_variable(&mut self, name: &Name, pos: Position) {
+        self.push(
+            Instruction::VarPathName(RootPath {
+                name: name.clone(),
+                shared: false,
+            }),
+            pos,
+        );
+        self.push(Instruction::CopyVarPathToA, pos);
+        self.push(Instruction::PopVarPath, pos);
+    }
+
     pub fn mark_statement_address(&mut self) {
         self.statement_addresses.push(self.instructions.len());
     }
